@@ -233,19 +233,31 @@ def run_lines(exe, lines, env=None, timeout=3600, shards=1):
         with ThreadPoolExecutor(shards) as ex:
             outs = list(ex.map(lambda c: run_lines(exe, c, env, timeout, 1), chunks))
         return [l for o in outs for l in o]
-    data = ('\n'.join(lines) + '\n').encode()
     e = dict(os.environ)
     if env:
         e.update(env)
-    r = subprocess.run([exe] if isinstance(exe, str) else exe, input=data, capture_output=True, timeout=timeout, env=e, preexec_fn=big_stack)
-    out = r.stdout.decode('latin1').split('\n')
-    if out and out[-1] == '':
-        out.pop()
-    if r.returncode != 0 or len(out) != len(lines):
-        # crash / sanitizer abort: mark the first missing line
-        while len(out) < len(lines):
-            out.append('CRASH rc=%d %s' % (r.returncode, r.stderr.decode('latin1')[-400:].replace('\n', ' | ')))
-    return out
+    # a crash / sanitizer abort kills the driver at one line: that line is marked CRASH and the driver is restarted on the
+    # lines after it, so every other line still gets its own result (bounded number of restarts)
+    result = []; start = 0; restarts = 0
+    while start < len(lines):
+        chunk = lines[start:]
+        data = ('\n'.join(chunk) + '\n').encode()
+        r = subprocess.run([exe] if isinstance(exe, str) else exe, input=data, capture_output=True, timeout=timeout, env=e, preexec_fn=big_stack)
+        out = r.stdout.decode('latin1').split('\n')
+        if out and out[-1] == '':
+            out.pop()
+        if r.returncode == 0 and len(out) == len(chunk):
+            result += out; break
+        out = out[:len(chunk)]
+        crash = 'CRASH rc=%d %s' % (r.returncode, r.stderr.decode('latin1')[-400:].replace('\n', ' | '))
+        if len(out) == len(chunk):        # died after the last line (e.g. leak report at exit): keep the outputs
+            result += out; break
+        result += out + [crash]
+        start += len(out) + 1
+        restarts += 1
+        if restarts >= 400:
+            result += [crash] * (len(lines) - len(result)); break
+    return result
 
 # ---------------------------------------------------------------- reporting
 def load_known():
